@@ -283,6 +283,9 @@ def run(tier, seed, jobs):
     res.merge(explore_schedules([ShutScenario(k, 1, stalls=True) for k in SCENARIOS], 1, jobs))
     if tier == "quick":
         res.merge(explore_schedules([ShutScenario(k, 2) for k in ("slow-handler", "bw-down", "obs-client")], 2, jobs, cap=40000))
+    else:
+        # one network deviation, then the shutdown with a stall
+        res.merge(explore_schedules([ShutScenario(k, 2, stalls=True) for k in SCENARIOS], 2, jobs, cap=20000))
     return res
 
 
